@@ -468,7 +468,8 @@ func (tt *typeTerms) typeGuards(b *ssa.BasicBlock) [][2]string {
 			edge = 1
 		}
 		other := 1 - edge
-		if (id.Succs[edge] == d || id.Succs[edge].Dominates(d)) && !(id.Succs[other] == d || id.Succs[other].Dominates(d)) && len(id.Succs[edge].Preds) == 1 {
+		_ = other
+		if edgeOnly(id, edge, d) {
 			out = append(out, [2]string{tt.tyterm(bo.X), tt.tyterm(bo.Y)})
 		}
 	}
@@ -624,7 +625,7 @@ func (tt *typeTerms) failureValue(ev ssa.Value, b *ssa.BasicBlock) bool {
 		if !ok || bo.Op != token.NEQ || !isNilConst(bo.Y) || !tt.sameErr(bo.X, ev) {
 			continue
 		}
-		if (id.Succs[0] == d || id.Succs[0].Dominates(d)) && len(id.Succs[0].Preds) == 1 {
+		if edgeOnly(id, 0, d) {
 			return true
 		}
 	}
@@ -733,7 +734,7 @@ func (tt *typeTerms) ptrOfElem(have, want string, b *ssa.BasicBlock) bool {
 		if !ok || !kc.Call.IsInvoke() || tt.tyterm(kc.Call.Value) != want {
 			continue
 		}
-		if (id.Succs[0] == d || id.Succs[0].Dominates(d)) && len(id.Succs[0].Preds) == 1 {
+		if edgeOnly(id, 0, d) {
 			return true
 		}
 	}
@@ -814,7 +815,7 @@ func (tt *typeTerms) kindKnown(term string, K int64, b *ssa.BasicBlock) bool {
 		if !ok || bo.Op != token.EQL || bo.X.Type().String() != "reflect.Kind" {
 			continue
 		}
-		if !((id.Succs[0] == d || id.Succs[0].Dominates(d)) && len(id.Succs[0].Preds) == 1) {
+		if !edgeOnly(id, 0, d) {
 			continue
 		}
 		x := tt.kindTermOf(bo.X)
@@ -909,7 +910,8 @@ func (tt *typeTerms) succeeded(c *ssa.Call, b *ssa.BasicBlock) bool {
 			continue
 		}
 		other := 1 - edge
-		if (id.Succs[edge] == d || id.Succs[edge].Dominates(d)) && !(id.Succs[other] == d || id.Succs[other].Dominates(d)) {
+		_ = other
+		if edgeOnly(id, edge, d) {
 			return true
 		}
 	}
